@@ -27,6 +27,10 @@ def run(F, X, rep):
     c_one_cell(F, X, rep)
     import rules_provider as P
     P.g_getinfo_is_fresh(R.Ctx.get(F, X), rep, "C20-F")
+    # a block notification is applied even when a hook reply wins the driver's select: handlers run in spawned tasks,
+    # not inside the raced (cancellable) reader future
+    import p_c17
+    p_c17.r2(F, X, rep, "C20-H2")
 
 
 def c_one_cell(F, X, rep, rid="C20-C"):
@@ -192,8 +196,7 @@ def s_sources(F, X, rep):
     rep.anchor(rid, "BlockProvider impl body", n, 1)
 
 
-def l_poll_loop(F, X, rep):
-    rid = "C20-L"
+def l_poll_loop(F, X, rep, rid="C20-L"):
     rep.rule(rid, "the poll loop returns only via the shutdown arm; poll errors continue; sleep(constant) precedes each poll; spawned after one successful poll")
     loops = []
     for b in F.code_bodies():
